@@ -1301,29 +1301,90 @@ def _inline_pure_helpers(tree):
     """A private module-level function whose body is single assignments of pure expressions to fresh locals followed
     by `return <pure expression>` is a named expression: a call of it with simple arguments is replaced by that
     expression (parameters -> arguments, locals -> their definitions).  Nothing is duplicated that could have an effect."""
-    helpers = {}
-    for st in tree.body:
-        if not (isinstance(st, ast.FunctionDef) and st.name.startswith("_") and not st.name.startswith("__") and not st.decorator_list):
-            continue
+    def qualifies(st, need_private=True):
+        if not (isinstance(st, ast.FunctionDef) and not st.decorator_list) or (need_private and not (st.name.startswith("_") and not st.name.startswith("__"))):
+            return None
         a = st.args
         if a.vararg or a.kwarg or a.kwonlyargs or a.posonlyargs or a.defaults:
-            continue
+            return None
         body = [x for x in st.body if not (isinstance(x, ast.Expr) and isinstance(x.value, ast.Constant))]
+        # `_, r = divmod(a, b)`  ->  r = a % b ;  `q, _ = divmod(a, b)`  ->  q = a // b
+        body2 = []
+        for x in body:
+            if isinstance(x, ast.Assign) and len(x.targets) == 1 and isinstance(x.targets[0], ast.Tuple) and len(x.targets[0].elts) == 2 and all(isinstance(t, ast.Name) for t in x.targets[0].elts) and isinstance(x.value, ast.Call) and isinstance(x.value.func, ast.Name) and x.value.func.id == "divmod" and len(x.value.args) == 2 and not x.value.keywords:
+                q_, r_ = x.targets[0].elts
+                a_, b_ = x.value.args
+                if q_.id != "_":
+                    body2.append(ast.copy_location(ast.Assign(targets=[q_], value=ast.BinOp(left=copy.deepcopy(a_), op=ast.FloorDiv(), right=copy.deepcopy(b_)), type_comment=None), x))
+                if r_.id != "_":
+                    body2.append(ast.copy_location(ast.Assign(targets=[r_], value=ast.BinOp(left=copy.deepcopy(a_), op=ast.Mod(), right=copy.deepcopy(b_)), type_comment=None), x))
+            else:
+                body2.append(x)
+        body = body2
         if not body or not isinstance(body[-1], ast.Return) or body[-1].value is None:
-            continue
+            return None
         params = [p.arg for p in a.args]
-        seen, ok = set(params), True
+        seen = set(params)
         for x in body[:-1]:
             tgt = x.targets[0] if isinstance(x, ast.Assign) and len(x.targets) == 1 else x.target if isinstance(x, ast.AnnAssign) and x.value is not None else None
             if not isinstance(tgt, ast.Name) or tgt.id in seen or not _pure_expr(x.value):
-                ok = False
-                break
+                return None
             seen.add(tgt.id)
-        if ok and _pure_expr(body[-1].value) and len(body) > 1:
-            helpers[st.name] = (params, body)
-    if not helpers:
-        return 0
+        if _pure_expr(body[-1].value) and (len(body) > 1 or not need_private):
+            return (params, body)
+        return None
+
+    helpers = {}
+    for st in tree.body:
+        q = qualifies(st)
+        if q is not None:
+            helpers[st.name] = q
     count = [0]
+    # closures: a pure straight-line function defined inside a function and called there (its free names mean at the
+    # call what they mean in the enclosing function, late binding)
+    for outer in [n for n in ast.walk(tree) if isinstance(n, ast.FunctionDef)]:
+        local = {}
+        for st in outer.body:
+            q = qualifies(st, need_private=False)
+            if q is not None and isinstance(st, ast.FunctionDef):
+                local[st.name] = q
+        if not local:
+            continue
+        stored = {}
+        for n in ast.walk(outer):
+            if isinstance(n, ast.Name) and isinstance(n.ctx, ast.Store):
+                stored[n.id] = stored.get(n.id, 0) + 1
+        for hname, (params, body) in local.items():
+            free = {n.id for x in body for n in ast.walk(x) if isinstance(n, ast.Name) and isinstance(n.ctx, ast.Load)} - set(params) - {t.targets[0].id for t in body[:-1] if isinstance(t, ast.Assign)}
+            if any(stored.get(v, 0) > 1 for v in free):
+                continue
+
+            class _InlL(ast.NodeTransformer):
+                def visit_FunctionDef(self, node):
+                    if node.name == hname and node is not outer:
+                        return node
+                    self.generic_visit(node)
+                    return node
+
+                def visit_Call(self, node):
+                    self.generic_visit(node)
+                    if isinstance(node.func, ast.Name) and node.func.id == hname and not node.keywords and not any(isinstance(x, ast.Starred) for x in node.args) and len(node.args) == len(params) and all(_simple(x) or _pure_expr(x) for x in node.args):
+                        env = dict(zip(params, node.args))
+                        for x in body[:-1]:
+                            tgt = x.targets[0] if isinstance(x, ast.Assign) else x.target
+                            env[tgt.id] = _Subst(env).visit(copy.deepcopy(x.value))
+                        out = _Subst(env).visit(copy.deepcopy(body[-1].value))
+                        if sum(1 for _ in ast.walk(out)) <= 600:
+                            count[0] += 1
+                            return ast.copy_location(out, node)
+                    return node
+
+            _InlL().visit(outer)
+            # the definition goes when nothing refers to it any more
+            if not any(isinstance(n, ast.Name) and n.id == hname and isinstance(n.ctx, ast.Load) for st in outer.body if not (isinstance(st, ast.FunctionDef) and st.name == hname) for n in ast.walk(st)):
+                outer.body = [st for st in outer.body if not (isinstance(st, ast.FunctionDef) and st.name == hname)] or [ast.Pass()]
+    if not helpers:
+        return count[0]
 
     class _Inl(ast.NodeTransformer):
         def visit_FunctionDef(self, node):
